@@ -12,6 +12,7 @@
 #include "ParameterFile.hpp"
 #include "PhotonSourceDistributionFactory.hpp"
 #include "../detsim/fsim.hpp"
+#include <sys/time.h>
 #include <sys/wait.h>
 #include <sys/syscall.h>
 #include <sstream>
@@ -1310,7 +1311,15 @@ Outcome ERhdEngine::execute_c14(const Cfg &c) {
       pid_t rp = fork();
       if (rp == 0) {
         close(fds[0]);
-        alarm(120);
+        {
+          // CPU-time limit (a wall-clock limit would depend on the load of
+          // the machine); wall-clock alarm only as a fallback
+          struct itimerval it;
+          memset(&it, 0, sizeof it);
+          it.it_value.tv_sec = 120;
+          setitimer(ITIMER_PROF, &it, nullptr);
+          alarm(1800);
+        }
         clock_set(1.7e9);
         RunResult R = run({"--restart", rdir, "--number-of-steps",
                            std::to_string(N)},
